@@ -45,7 +45,11 @@ def extra_inputs(pname, info, q, rng):
         x[0] = q.iota
         x = x + 0.05 * rng.standard_normal(q.nphi)   # arbitrary (not converged) state vector
         ex['x'] = x
+        ex['xs'] = x
+        ex['xi'] = float(x[0])
         ex['h'] = rng.standard_normal(q.nphi)
+        ex['hs'] = ex['h']
+        ex['hi'] = float(ex['h'][0])
     if fn == 'calculate_r2':
         ex['solve1_0'] = q.X20
         ex['solve1_1'] = q.Y20
